@@ -72,3 +72,47 @@ func (P *Prog) deepExitsD(fn *ssa.Function, through func(*ssa.Function) bool, de
 	}
 	return out
 }
+
+// expandErr: an error value that is the result of an in-package function
+// (also a function literal) is replaced by the alternatives that function
+// returns on its failure exits, so that "which sentinel does this wrap" can be
+// read off the term.
+func (P *Prog) expandErr(t *Term, depth int) *Term {
+	if depth > 2 {
+		return t
+	}
+	call, idx := t, 0
+	if t.Op == "res" && len(t.Args) == 1 && t.Args[0].Op == "call" {
+		call = t.Args[0]
+		idx, _ = strconv.Atoi(t.S)
+	}
+	if call.Op != "call" {
+		return t
+	}
+	g := P.calleeOfTerm(call)
+	if g == nil || g.Blocks == nil || errIndex(g) != idx {
+		return t
+	}
+	fr := P.factsOf(g)
+	if fr.busy {
+		return t
+	}
+	m := map[string]*Term{}
+	for i, a := range call.Args {
+		m[strconv.Itoa(i)] = a
+	}
+	var alts []*Term
+	for _, x := range fr.exits {
+		if x.kind == exitSuccess && !x.delegated {
+			continue
+		}
+		alts = append(alts, P.expandErr(x.errTerm.subst(m), depth+1))
+	}
+	if len(alts) == 0 {
+		return t
+	}
+	if len(alts) == 1 {
+		return alts[0]
+	}
+	return canon(&Term{Op: "alt", Args: alts})
+}
